@@ -2,7 +2,7 @@
 """regenerate seeded/INDEX.md (and print the table for DESIGN.md section 8) from the meta.json files"""
 import glob, json, os
 rows = []
-for d in sorted(glob.glob('/verif/seeded/*/')):
+for d in sorted(glob.glob('/verif/seeded/C*/')):
     m = json.load(open(d + 'meta.json'))
     name = os.path.basename(d.rstrip('/'))
     off = m.get('official_run', {}).get('results', {})
